@@ -2,7 +2,8 @@
 """harmless_cross.py [-j N] [names...] : run every harmless change against every check whose property is anchored in (or runs through)
 the directories the change touches, not only the property it was written for. Writes harmless/<name>/cross.json; prints alarms.
 A scratch worktree per (change) under /tmp/mut, removed afterwards; /repo itself is never touched."""
-import json, os, re, subprocess, sys, concurrent.futures as cf
+import json, os, re, subprocess, sys, threading, time, concurrent.futures as cf
+GITLOCK = threading.Lock()
 HERE = os.path.dirname(os.path.dirname(os.path.abspath(__file__)))
 AREA = [
     (r"^dkv/", "C01 C03 C06 C07 C08 C09 C10 C14 C17 C18"),
@@ -27,7 +28,12 @@ def checks_for(name):
 def run(name):
     d = os.path.join(HERE, "harmless", name)
     w = "/tmp/mut/hx-%s-%d" % (name, os.getpid())
-    subprocess.run(["git", "-C", "/repo", "worktree", "add", "-q", "--detach", w, "HEAD"], check=True)
+    with GITLOCK:
+        for attempt in range(5):
+            if subprocess.run(["git", "-C", "/repo", "worktree", "add", "-q", "--detach", w, "HEAD"]).returncode == 0: break
+            time.sleep(2)
+        else:
+            return name, {"error": {"rc": 2, "what": "git worktree add failed"}}
     res = {}
     try:
         if subprocess.run(["git", "-C", w, "apply", os.path.join(d, "patch.diff")]).returncode != 0:
@@ -42,7 +48,8 @@ def run(name):
             kinds = sorted(set(re.findall(r"^\[check %s\] (spec|model|tie|proof|static-gate): " % c, t, re.M)))
             res[c] = {"rc": rc, "violation": vio[:1], "kinds": kinds}
     finally:
-        subprocess.run(["git", "-C", "/repo", "worktree", "remove", "--force", w])
+        with GITLOCK:
+            subprocess.run(["git", "-C", "/repo", "worktree", "remove", "--force", w])
     json.dump({"name": name, "results": res, "quiet": all(r["rc"] == 0 for r in res.values())}, open(os.path.join(d, "cross.json"), "w"), indent=1)
     return name, res
 if __name__ == "__main__":
